@@ -267,6 +267,16 @@ fn run<const B: usize, const L: usize>(p: &[&str]) -> String {
             let a: [u64; L] = v.try_into().expect("from_limbs needs exactly LIMBS limbs");
             h(&Uint::<B, L>::from_limbs(a))
         }
+        // ark-ff 0.4 `From<BigInt<LIMBS>>` / `From<&BigInt<LIMBS>>`: limb-array constructors of a support module; like
+        // `from_limbs` they must reject out-of-range limbs (panic), never hand out a non-canonical value
+        "arkfrom" | "arkfromref" => {
+            let v = parse_limbs_list(p[2]);
+            let a: [u64; L] = v.try_into().expect("arkfrom needs exactly LIMBS limbs");
+            let bi = ark_ff_04::BigInt::<L>(a);
+            let r: Uint<B, L> = if p[0] == "arkfrom" { bi.into() } else { (&bi).into() };
+            // raw limbs (not `h`): a non-canonical value must be visible
+            format!("value {}", limbs_list(r.as_limbs()))
+        }
         _ => "bad-op".into(),
     }
 }
